@@ -107,8 +107,8 @@ fn verify(v: &V, bits: usize, ctx: &[u8], key: &[u8; 32], rep_pub: &[u8], rep_sh
         flush(out);
         let carry: Vec<u8> = if round == 1 { let (a, b) = (els(&wire[0], leaf), els(&wire[1], leaf)); (0..3).map(|i| if &a[i] + &b[i] >= p_of(leaf) { 1 } else { 0 }).collect() } else { vec![] };
         let msg = match r {
-            Ok(Ok(m)) => { let mb = m.get_encoded().unwrap(); out.push(json!({"ev":"s2m","round":round,"leaf":leaf,"vshares":wire,"ok":true,"msg":mb,"carry":carry,"msg_len":m.encoded_len()})); mb }
-            Ok(Err(_)) => { out.push(json!({"ev":"s2m","round":round,"leaf":leaf,"vshares":wire,"ok":false,"msg":[],"carry":carry})); return None; }
+            Ok(Ok(m)) => { let mb = m.get_encoded().unwrap(); out.push(json!({"ev":"s2m","round":round,"leaf":leaf,"honest":honest,"vshares":wire,"ok":true,"msg":mb,"carry":carry,"msg_len":m.encoded_len()})); mb }
+            Ok(Err(_)) => { out.push(json!({"ev":"s2m","round":round,"leaf":leaf,"honest":honest,"vshares":wire,"ok":false,"msg":[],"carry":carry})); return None; }
             Err(p) => { out.push(json!({"ev":"panic","where":"s2m","msg":p})); return None; }
         };
         let mut mb = msg.clone();
@@ -166,6 +166,13 @@ fn prefixes_of(inputs: &[IdpfInput], level: usize, extra: &mut Sm, max: usize) -
     // siblings and a few random candidates
     for i in 0..set.len().min(3) { let mut s = set[i].clone(); let l = s.len() - 1; s[l] = !s[l]; set.push(s); }
     for _ in 0..2 { set.push((0..=level).map(|_| extra.below(2) == 1).collect()); }
+    // cousins of the first input's prefix: one bit flipped at the storage-word boundaries of long prefixes
+    if level >= 8 {
+        let len = level + 1;
+        for pos in [0usize, 1, len % 64, (len % 64).saturating_sub(1), 10, 63, 64, 65, len - 2] {
+            if pos < len { let mut s = set[0].clone(); s[pos] = !s[pos]; set.push(s); }
+        }
+    }
     set.sort();
     set.dedup();
     set.truncate(max);
@@ -269,10 +276,23 @@ pub fn record(args: &[String]) {
                     out.push(json!({"ev":"begin","bits":bits}));
                 }
                 for level in levels {
-                    let ps = prefixes_of(&inputs, level, &mut rng, 3);
+                    let ps = prefixes_of(&inputs, level, &mut rng, 16);
                     let Some(ap) = mk_ap(ps, &mut out) else { continue };
                     let before = out.len();
                     aggregate_level(&v, bits, &ctx, &key, &reports, &ap, &mut out);
+                    // pairs of candidates that differ in a single bit around the storage-word boundaries of the (multi-word) cache keys:
+                    // the evaluation of the second candidate looks up prefixes one bit away from nodes the first one just cached
+                    if level >= 65 && bits <= 1000 {
+                        for pos in [level % 64, 63, 64, (level % 64 + 63) / 2] {
+                            let b: Vec<bool> = inputs[0].iter().take(level + 1).collect();
+                            let mut c = b.clone();
+                            c[pos] = !c[pos];
+                            let mut pair = vec![b, c];
+                            pair.sort();
+                            let Some(ap2) = mk_ap(pair.iter().map(|x| IdpfInput::from_bools(x)).collect(), &mut out) else { continue };
+                            aggregate_level(&v, bits, &ctx, &key, &reports, &ap2, &mut out);
+                        }
+                    }
                     if bits > 1000 {
                         // drop the bulky share bytes from vinit events of very deep trees (they are checked on the small trees)
                         for e in out[before..].iter_mut() {
